@@ -105,6 +105,7 @@ def suite_call(ctx, case):
     ml = ctx.drv.ask(C06.drv_line(call))
     il = impl.replace(' nan', ' 7ff8000000000000')
     atols = G.group_atols(il.replace('7ff8000000000000', '0000000000000000'), 1e-7)
+    atols = [max(t_, 1e-7 * C06.noise_floor(p0)) for t_ in atols]
     if out is not None and call in ('pmf', 'solvP'):
         arg = np.exp(-out.data.reshape(-1) / p.sys.kT)
         with np.errstate(all='ignore'):
@@ -123,7 +124,7 @@ def suite_call(ctx, case):
         with np.errstate(all='ignore'):
             good = (arg > 1e-6) & np.isfinite(ref[0]) & np.isfinite(a[0])
         a = [a[0][good]]; ref = [ref[0][good]]
-    ok, why = C06.same_vals(a, ref, 1e-7)
+    ok, why = C06.same_vals(a, ref, 1e-7, C06.noise_floor(p0))
     ctx.pred('call', case, ok, '%s (rank %d) differs from its definition: %s' % (call, n, why), key='C05:def:' + call.rstrip('01HP'))
     if call == 'pmf' and p0.totalCorr.space == Space.Real:
         # -kT ln g at points where g is EXACTLY zero is +infinity (not nan, which is what g < 0 gives)
@@ -165,7 +166,7 @@ def suite_call(ctx, case):
                 with np.errstate(all='ignore'):
                     good = (np.exp(-ref2[0] / p.sys.kT) > 1e-6) & np.isfinite(ref2[0]) & np.isfinite(a2[0])
                 a2 = [a2[0][good]]; ref2 = [ref2[0][good]]
-            ok2, why2 = C06.same_vals(a2, ref2, 1e-7)
+            ok2, why2 = C06.same_vals(a2, ref2, 1e-7, C06.noise_floor(p0))
         except Exception as e:
             ok2 = False; why2 = 'raised %s: %s' % (type(e).__name__, str(e)[:80])
         ctx.pred('call', case, ok2, '%s (rank %d), second call after the stored correlations were edited in place and the first result was modified by the caller, differs from its definition: %s' % (call, n, why2),
